@@ -21,16 +21,25 @@ pub fn make_case(class: &str, seed: u64, case_no: u64) -> Case {
   if class.contains("multi") { gen::mutate_multi_checker(&mut rng, &mut prog); }
   if class.contains("faulty") { gen::mutate_faulty(&mut rng, &mut prog); }
   if class.contains("fc") { gen::add_arming(&mut rng, &prog, &mut steps); }
+  for (tag, what) in [("inj-hr", gen::Inject::HiddenRead), ("inj-hw", gen::Inject::HiddenWrite), ("inj-ov", gen::Inject::Overlap), ("inj-cy", gen::Inject::Cycle)] {
+    if class.contains(tag) { gen::inject(&mut rng, &mut prog, what); if rng.chance(1, 4) { gen::inject(&mut rng, &mut prog, what); } }
+  }
+  if class.contains("inj-up") { gen::inject(&mut rng, &mut prog, gen::Inject::UserPanic); }
+  if class.contains("inj-any") {
+    let n = rng.range(1, 3);
+    for _ in 0..n { let what = *rng.pick(&[gen::Inject::HiddenRead, gen::Inject::HiddenWrite, gen::Inject::Overlap, gen::Inject::Cycle, gen::Inject::UserPanic]); gen::inject(&mut rng, &mut prog, what); }
+  }
   Case { prog, init, steps }
 }
 
 pub fn opts_for(which: &'static str, class: &'static str, tier: &str, seed: u64, case_no: u64) -> RunOpts {
   RunOpts {
     which, class,
-    wellformed: !(class.contains("multi") || class.contains("faulty")),
+    wellformed: !(class.contains("multi") || class.contains("faulty") || class.contains("inj-")),
+    injected: class.contains("inj-"),
     pure_history: class.starts_with("pure") || class.starts_with("td"),
-    idempotence_probe: which == "C02" || (case_no % 4 == 0),
-    c03_probe: !class.starts_with("td"),
+    idempotence_probe: (which == "C02" || (case_no % 4 == 0)) && !class.contains("inj-"),
+    c03_probe: !class.starts_with("td") && !class.contains("inj-"),
     fresh_pie: tier == "thorough" && case_no % 8 == 0,
     seed, case_no,
   }
@@ -40,9 +49,9 @@ pub fn run_classes(which: &'static str, tier: &str, seed: u64, plans: &[ClassPla
   let mut total = Report::new();
   if let Some((class, case_no)) = replay {
     if class == "curated" {
-      let (name, case) = &gen::curated()[case_no as usize];
-      let opts = RunOpts { which, class: "curated", wellformed: !name.starts_with("k2"), pure_history: !name.starts_with("k1"), idempotence_probe: true, c03_probe: true, fresh_pie: true, seed, case_no };
-      let mut r = CaseRunner::new(case, &opts, &mut total);
+      let all = curated_all(which, seed);
+      let (_, case, opts) = &all[case_no as usize];
+      let mut r = CaseRunner::new(case, opts, &mut total);
       r.known_as_alarm = true;
       r.run();
       return total;
@@ -55,11 +64,9 @@ pub fn run_classes(which: &'static str, tier: &str, seed: u64, plans: &[ClassPla
   }
   let threads = util::threads();
   // curated library first (known-finding reproducers and hostile shapes); findings here are raised as alarms
-  for (k, (name, case)) in gen::curated().iter().enumerate() {
-    let wf = !name.starts_with("k2");
-    let pure = !name.starts_with("k1");
-    let opts = RunOpts { which, class: "curated", wellformed: wf, pure_history: pure, idempotence_probe: true, c03_probe: true, fresh_pie: true, seed, case_no: k as u64 };
-    let mut r = CaseRunner::new(case, &opts, &mut total);
+  for (k, (name, case, opts)) in curated_all(which, seed).iter().enumerate() {
+    let _ = (k, name);
+    let mut r = CaseRunner::new(case, opts, &mut total);
     r.known_as_alarm = true;
     r.run();
     total.add("curated_cases", 1);
@@ -76,5 +83,65 @@ pub fn run_classes(which: &'static str, tier: &str, seed: u64, plans: &[ClassPla
     for r in parts { total.merge(r); }
     total.add(&format!("cases_{}", class), plan.n);
   }
+  total
+}
+
+pub fn curated_all(which: &'static str, seed: u64) -> Vec<(&'static str, Case, RunOpts)> {
+  let mut v = Vec::new();
+  for (name, case) in gen::curated() {
+    let k = v.len() as u64;
+    v.push((name, case, RunOpts { which, class: "curated", wellformed: !name.starts_with("k2"), injected: false, pure_history: !name.starts_with("k1"), idempotence_probe: true, c03_probe: true, fresh_pie: true, seed, case_no: k }));
+  }
+  for (name, case) in gen::curated_k3() {
+    let k = v.len() as u64;
+    v.push((name, case, RunOpts { which, class: "curated", wellformed: false, injected: true, pure_history: true, idempotence_probe: false, c03_probe: false, fresh_pie: false, seed, case_no: k }));
+  }
+  v
+}
+
+/// C19, crash-point enumeration: for a well-formed case and a chosen session, the run is repeated with a panic at
+/// every task operation k of that session; the rest of the history then runs on the same instance with all monitors.
+pub fn run_crash_points(which: &'static str, tier: &str, seed: u64, n_cases: u64, replay: Option<u64>) -> Report {
+  use crate::driver::Driver;
+  use crate::gen::Step;
+  use std::rc::Rc;
+  let class: &'static str = "crash-points";
+  let one = |i: u64, only_k: Option<u64>, rep: &mut Report| {
+    let base = make_case(if i % 2 == 0 { "td-mixed" } else { "td-exact" }, seed ^ 0xC19, i);
+    let builds: Vec<usize> = base.steps.iter().enumerate().filter(|(_, s)| s.is_build()).map(|(k, _)| k).collect();
+    if builds.len() < 3 { return; }
+    let mut rng = Rng::derive(seed ^ 0xC19C19, i);
+    let b = builds[rng.below(builds.len() - 1)];
+    // dry run: how many task operations does session b perform?
+    crate::log::clear();
+    crate::cell::faults_reset();
+    let prog = Rc::new(base.prog.clone());
+    let mut d: Driver<()> = Driver::new(prog.clone(), &base.init, ());
+    let mut n_ops = 0;
+    for (k, st) in base.steps.iter().enumerate() {
+      match st {
+        Step::Set(r, v) => d.set(*r, *v),
+        Step::TopDown(roots) => { d.session(None, roots); if k == b { n_ops = crate::cell::FAULTS.with(|f| f.borrow().op_counter); break; } }
+        _ => {}
+      }
+    }
+    let _ = crate::log::take();
+    rep.add("crash_point_sessions", 1);
+    rep.max("max_operations_in_crashed_session", n_ops);
+    let ks: Vec<u64> = match only_k { Some(k) => vec![k], None => (1..=n_ops).collect() };
+    for k in ks {
+      let mut case = base.clone();
+      case.steps.insert(b, Step::PanicAt(k));
+      let mut opts = opts_for(which, class, tier, seed, i * 1000 + k);
+      opts.idempotence_probe = false;
+      let mut r = CaseRunner::new(&case, &opts, rep);
+      r.run();
+      rep.add("crash_points", 1);
+    }
+  };
+  let mut total = Report::new();
+  if let Some(c) = replay { one(c / 1000, Some(c % 1000), &mut total); return total; }
+  let parts = util::parallel(n_cases, util::threads(), 64, Report::new, |i, rep: &mut Report| { one(i, None, rep); rep.alarm_total < 40 });
+  for r in parts { total.merge(r); }
   total
 }
